@@ -135,16 +135,28 @@ def k18_annotate(ctx, pid: str):
     fi = p.get_func("moclo.core._assembly.AssemblyManager._annotate_assembly")
     ID, NAME = Term("ID"), Term("NAME")
 
-    def make_args(I):
+    def make_args(I, given=True):
         V = _entity(vec_cls, "V")
         mods = ACollection("modules", lambda: _entity(mod_cls, "m"))
         prod = ARec(True, [Piece("PRODUCT", ZERO, Aff.sym("len:product"))], Term("product"))
         I.prod = prod
         from .kernels2 import build_manager
-        obj = build_manager(I, mgr, V, mods, id_=ID, name=NAME)
+        obj = build_manager(I, mgr, V, mods, **({"id_": ID, "name": NAME} if given else {}))
         obj.attrs["modules"] = mods
         obj.attrs["__open__"] = True
         return (obj, prod), {}
+
+    def post_defaults(I, o):
+        # a manager built without id / name: what it puts on the product must still be text (SeqRecord rebuilds --
+        # rotation, reverse complement -- refuse anything else)
+        name = fi.qualname
+        if o.kind == "raise":
+            return [("K18.annotate", name, False, "annotation raises %r" % (o.value,))]
+        out = []
+        for a in ("id", "name"):
+            v = I.prod.attrs.get(a)
+            out.append(("K18." + a, name, isinstance(v, str) and bool(v), "a manager built without %s must still give the product a text %s, got %r" % (a, a, v)))
+        return out
 
     def post(I, o):
         name = fi.qualname
@@ -169,7 +181,8 @@ def k18_annotate(ctx, pid: str):
             ants.update(prod.attrs["annotations"])
         out.append(("K18.topology", name, ants.get("topology") == "circular", "the product must be declared circular, topology=%r" % (ants.get("topology"),)))
         mt = ants.get("molecule_type")
-        out.append(("K18.molecule-type", name, isinstance(mt, str) and bool(mt.strip()), "GenBank needs a molecule_type, got %r" % (mt,)))
+        out.append(("K18.molecule-type", name, isinstance(mt, str) and bool(mt.strip()) and "RNA" not in mt.upper(),
+                    "the product is a DNA construct: GenBank needs a molecule_type and Biopython complements by it, got %r" % (mt,)))
         com = ants.get("comment")
         items = com.items if isinstance(com, AList) else ([com] if com is not None else [])
         txt = [repr(x) for x in items]
@@ -183,7 +196,9 @@ def k18_annotate(ctx, pid: str):
         return out
 
     emit(ctx, run_paths(ctx, fi, make_args, [], hooks=_entity_hooks(p), post=post), fi.where())
+    emit(ctx, run_paths(ctx, fi, lambda I: make_args(I, False), [], hooks=_entity_hooks(p), post=post_defaults), fi.where(), "defaults:")
     ctx.report.floor("K18.topology", 1)
+    ctx.report.floor("K18.name", 2)
 
 
 # ---------------------------------------------------------------------------
@@ -414,6 +429,15 @@ def getitem_rule(ctx, rule: str):
                             "the slice must own deep copies of the library slice's %s (rotation shares qualifier dicts with its source, Biopython copies them only shallowly): got %r" % (f, got)))
             for f in ("id", "name", "description"):
                 out.append((rule + ".slice-carry", "%s#%s" % (name, f), v.attrs.get(f) == Term("sl:" + f), "%s must be carried, got %r" % (f, v.attrs.get(f))))
+            for f in ("features", "letter_annotations"):
+                # position-bound data: whatever copy is made, it is a copy of the *sliced* record's (the receiver's own
+                # tracks have the full length -- SeqRecord refuses them -- and its features the full record's coordinates)
+                got = v.attrs.get(f)
+                src = got
+                while isinstance(src, Term) and src.op in ("deepcopy", "copy", "list", "dict") and src.args:
+                    src = src.args[0]
+                out.append((rule + ".slice-carry", "%s#%s" % (name, f), src == Term("sl:" + f),
+                            "the slice's %s must be those of the library slice (cut to the slice), got %r" % (f, got)))
             return out
 
         emit(ctx, run_paths(ctx, fi, make_args, [N - 1], hooks={"lib_super": lib_super, "lib_call": isinstance_hook}, post=post), fi.where(), kind + ":")
@@ -493,7 +517,7 @@ def add_guard_rule(ctx, rule: str):
 # C16  transcription table and case flag
 
 
-def transcription_rule(ctx, rule: str):
+def transcription_rule(ctx, rule: str, strict_key: bool = False):
     """Fold DNARegex.__init__ on every IUPAC code and compare the compiled
     character class with the IUPAC table (library data, T5)."""
     from Bio.Data import IUPACData
@@ -560,14 +584,14 @@ def transcription_rule(ctx, rule: str):
                  "pattern letter %s matches target letter %s but not %s (or the reverse): the spelling of a record changes whether it is accepted; transcribed as %r flags=%s"
                  % (code, letter if up else letter.lower(), letter.lower() if up else letter, pat, flags), fi.where())
     r.floor(rule + ".iupac", 15 * 8)
-    letterwise_rule(ctx, rule, lib_hook)
+    letterwise_rule(ctx, rule, lib_hook, strict_key)
     extra = set("ACGTN")
     note = [c for c in sorted(table) if compiled.get(c) and re.compile(*compiled[c]).fullmatch("N") and c not in ("N",)]
     if note:
         r.note("codes also matching the letter N in a target: %s" % note)
 
 
-def letterwise_rule(ctx, rule: str, lib_hook):
+def letterwise_rule(ctx, rule: str, lib_hook, strict_key: bool = False):
     """The per-letter obligations above decide every pattern only if the
     transcription is a letter-wise map: evaluated on a pattern of arbitrary
     letters, what reaches re.compile is a constant prefix followed, for each
@@ -616,7 +640,15 @@ def letterwise_rule(ctx, rule: str, lib_hook):
         UX = Term("upper", X)
         ok_img = img in (Term("table-get", table, X, X), Term("table-value", table, X), X,
                          Term("table-get", table, UX, X), Term("table-value", table, UX))
-        out = [(rule + ".letterwise", name, ok_img,
+        if strict_key and ok_img and UX in getattr(img, "args", ()):
+            # the table is read under a case-folded key: the lower-case letters of the regex syntax a structure may use
+            # (names of named groups, escapes, inline flags) are rewritten into character classes and no longer compile
+            out0 = [(rule + ".syntax-letters", name, False,
+                     "the letter table is read under upper(x): lower-case letters that belong to the regex syntax of a structure "
+                     "(`(?P<name>`, `\\b`, inline flags) are transcribed too and the pattern raises re.error; image %r" % (img,))]
+        else:
+            out0 = [(rule + ".syntax-letters", name, True, "")] if strict_key else []
+        out = out0 + [(rule + ".letterwise", name, ok_img,
                 "each pattern letter x must be transcribed as lettermap.get(x, x) on its own, in order: the per-letter image is %r" % (img,))]
         try:
             tree = list(re._parser.parse(prefix))
